@@ -41,6 +41,12 @@ def sync_shape(rep, F, cg):
     okd = cf is not None and describe_operand(B, cf[1]['args'][0]).endswith('.data') and describe_operand(B, cf[1]['args'][1]) == 'self.data'
     rep.add('SYNC-SHAPE', 'sync:data', 'sync copies self.data into the stored record\'s data', okd, B.loc(cf[0]) if cf else '',
             '' if okd else 'the stored data is not updated from self.data')
+    # the copy happens on EVERY path on which the record was found (not only when some condition on the data holds)
+    from atomic import PairCheck, Mutation
+    PC = PairCheck(F, cg, Mutation(F, cg))
+    PC.after(rep, 'SYNC-SHAPE', 'sync:always-copies', name, lambda B_, i, t: (callee_of(t) or '').endswith('>::get_file_mut'),
+             lambda B_, i, t: (t.get('callee') or '').endswith('Clone::clone_from') or (t.get('callee') or '').endswith('::clone_from'),
+             [('none', '>::get_file_mut')], 'sync: whenever the stored record is found, self.data is copied into it (unconditionally)')
     ce = calls.get('contains_entry')
     oke = ce is not None
     # the missing-entry branch returns Err
@@ -86,6 +92,8 @@ def run(rep, F, ctx):
         ok = len(cs) == 1 and describe_operand(B, cs[0][1]['args'][0]) == 'self.data' and describe_operand(B, cs[0][1]['args'][1]) == 'buf'
         rep.add('WRITE-BUF', 'write:buffer', 'MemfsFile::write forwards (self.data, buf) to Vec<u8>::write', ok, '%s:%d' % (B.file, B.line),
                 '' if ok else 'MemfsFile::write does not append buf to self.data')
+    import mustcall as _mc
+    _mc.handle_path(rep, F, cg)
     return engine.finish(
         rep, 'other', EXPLANATION,
         assumptions=['Vec<u8> as io::Write appends the whole buffer', 'the excuse table lines (tables/panic_excuses.json) state true invariants; their structural side conditions are re-checked on every run'],
